@@ -30,7 +30,7 @@ SERIAL_THREADS = True
 RULE = (
     "iterator part: 10 queries x 6 harness configurations (sharing of query / environment / document) "
     "x all interleavings of next() over 2-3 iterators (multinomial; every schedule replayed on fresh "
-    "iterators) + all single close/drop points for k=2; thread part: 12 two-thread harnesses x all "
+    "iterators) + all single close/drop points for k=2; thread part: 15 two-thread harnesses x all "
     "schedules with <=1 (quick) / <=2 (thorough) preemptions at line granularity; distinct by "
     "construction; non-trivial = schedules in which at least two iterators/threads are live at once"
 )
@@ -169,10 +169,13 @@ T_HARNESS = [
     ("match with two different patterns shared env", 4, 10, "find", "find"),
     ("search / match different patterns shared env", 11, 4, "find", "iter"),
     ("length+count / value shared env", 5, 12, "find", "find"),
+    ("match() in a shared compiled query", 4, 4, "iter", "iter"),
+    ("count() in a shared compiled query", 5, 5, "iter", "iter"),
+    ("value() in a shared compiled query / find", 12, 12, "iter", "find"),
 ]
 
 
-T3 = {12: (0, "iter"), 13: (4, "find")}  # thorough only: harness index -> (query, kind) of a third thread
+T3 = {15: (0, "iter"), 16: (4, "find")}  # thorough only: harness index -> (query, kind) of a third thread
 T_HARNESS_3 = [
     ("three threads: finditer x2 shared query + find", 0, 0, "iter", "iter"),
     ("three threads: match two patterns + third pattern", 4, 10, "find", "find"),
@@ -212,7 +215,7 @@ def thread_bodies(h):
 
         bodies = [body(qa, ka), body(qb, kb)]
         if third is not None:
-            bodies.append(body(11 if h == 13 else third[0], third[1]))
+            bodies.append(body(11 if h == 16 else third[0], third[1]))
         return bodies
 
     def make():
